@@ -15,6 +15,10 @@ Float underflow of the softmax (finding F-C05-a) violates exactly `wpos`.
 
 Notation in the statements: `KI = keypointsInputs cfg ws`, `KO = keypointsOutputs cfg kernel`,
 `n = cfg.inputKeypoints.length`.
+
+`WF` is derived from acceptance by the layer constructor model plus the shapes `build()` creates in
+Props/C05Accepted.lean (`built_wf`), where the headline theorems are restated for accepted layers.
+All units of one example: `callUnits` (PWL) / `Categorical.callUnits`; `split_outputs`: `layerOutput`.
 -/
 namespace Tfl.C05
 open Tfl Tfl.PwlEval Tfl.Poset
@@ -203,6 +207,109 @@ theorem callUnits_per_unit (cfg : Cfg) (kernels wss : List (List Rat)) (mouts xs
   have h1' : kernels.length ≠ 1 := h ▸ h1
   simp [callUnits, h, h1']
 
+/-- **C05, per-unit inputs, missing path.** With one input column per unit and ANY `is_missing`
+argument (absent, or a tensor of the shape of the inputs), unit `u` is evaluated at input column `u`
+with `is_missing` column `u` — `callUnits_per_unit` is the case `ms = none`. -/
+theorem callUnits_per_unit_missing (cfg : Cfg) (kernels wss : List (List Rat)) (mouts xs : List Rat)
+    (ms : Option (List Rat)) (h : xs.length = kernels.length) (h1 : xs.length ≠ 1)
+    (hm : ∀ m, ms = some m → m.length = xs.length) :
+    callUnits cfg kernels wss mouts xs ms =
+      (List.range kernels.length).mapM (fun u =>
+        call cfg (kernels.getD u []) (wss.getD u []) (getR mouts u) (getR xs u)
+          (ms.map (fun m => getR m u))) := by
+  have h1' : kernels.length ≠ 1 := h ▸ h1
+  cases ms with
+  | none => simp [callUnits, h, h1']
+  | some m =>
+    have := hm m rfl
+    simp [callUnits, h, h1', this]
+
+/-- an `is_missing` tensor whose row has another length than the input row is rejected -/
+theorem callUnits_is_missing_shape (cfg : Cfg) (kernels wss : List (List Rat)) (mouts xs m : List Rat)
+    (hm : m.length ≠ xs.length) : callUnits cfg kernels wss mouts xs (some m) = .error .valueError := by
+  unfold callUnits
+  split
+  · rfl
+  · have : (m.length != xs.length) = true := by simpa using hm
+    simp only [this, if_true]
+
+/-- what a successful `mapM` over `range n` returned -/
+theorem mapM_range_ok {f : Nat → Except Err Rat} {n : Nat} {ys : List Rat}
+    (h : (List.range n).mapM f = .ok ys) : ys.length = n ∧ ∀ u, u < n → f u = .ok (getR ys u) := by
+  induction n generalizing ys with
+  | zero =>
+    simp only [List.range_zero, List.mapM_nil, pure, Except.pure, Except.ok.injEq] at h
+    subst h; exact ⟨rfl, fun u hu => absurd hu (by omega)⟩
+  | succ n ih =>
+    rw [List.range_succ, List.mapM_append] at h
+    simp only [bind, Except.bind] at h
+    split at h
+    · cases h
+    · rename_i zs hzs
+      obtain ⟨hl, hz⟩ := ih hzs
+      simp only [List.mapM_cons, List.mapM_nil, bind, Except.bind, pure, Except.pure] at h
+      cases hfn : f n with
+      | error e => rw [hfn] at h; cases h
+      | ok v =>
+        rw [hfn] at h
+        simp only [Except.ok.injEq] at h
+        subst h
+        refine ⟨by simp [hl], fun u hu => ?_⟩
+        rcases Nat.lt_or_ge u n with hlt | hge
+        · rw [hz u hlt]; congr 1
+          unfold getR
+          rw [List.getD_eq_getElem?_getD, List.getD_eq_getElem?_getD, List.getElem?_append_left (by omega)]
+        · have e : u = n := by omega
+          subst e
+          rw [hfn]; congr 1
+          unfold getR
+          rw [List.getD_eq_getElem?_getD, List.getElem?_append_right (by omega)]
+          simp [hl]
+
+/-- **C05, every unit of a successful layer call.** Whenever `PWLCalibration.call` returns for an
+example (single broadcast column or one column per unit, with or without `is_missing`), there is one
+output per unit and output `u` is `call` on unit `u`'s OWN kernel column / softmax row / missing output
+at unit `u`'s input — so every one-unit theorem of this file (T1, T2, T5) applies to each output of
+the multi-unit layer. -/
+theorem callUnits_entries (cfg : Cfg) (kernels wss : List (List Rat)) (mouts xs : List Rat)
+    (ms : Option (List Rat)) (ys : List Rat) (h : callUnits cfg kernels wss mouts xs ms = .ok ys) :
+    ys.length = kernels.length ∧ ∀ u, u < kernels.length →
+      call cfg (kernels.getD u []) (wss.getD u []) (getR mouts u)
+        (getR xs (if xs.length = 1 then 0 else u)) (ms.map (fun m => getR m (if xs.length = 1 then 0 else u)))
+        = .ok (getR ys u) := by
+  unfold callUnits at h
+  split at h
+  · cases h
+  · cases ms with
+    | none => exact mapM_range_ok h
+    | some m =>
+      by_cases hc : (m.length != xs.length) = true
+      · simp only [hc, if_true] at h; cases h
+      · simp only [hc] at h; exact mapM_range_ok h
+
+/-- **C05, `split_outputs`.** With `units > 1 and split_outputs` the layer returns the list of the
+`units` columns of its `(batch, units)` result — for one example: `units` one-entry rows, row `u`
+holding output `u`; concatenated they are the unsplit row. Otherwise (also for a single unit) the row
+itself is returned. -/
+theorem split_outputs_columns (units : Nat) (split : Bool) (ys : List Rat) :
+    (layerOutput units split ys).flatten = ys ∧
+    ((units > 1 ∧ split = true) → (layerOutput units split ys).length = ys.length ∧
+      ∀ u, u < ys.length → (layerOutput units split ys).getD u [] = [getR ys u]) ∧
+    (¬ (units > 1 ∧ split = true) → layerOutput units split ys = [ys]) := by
+  unfold layerOutput splitOutputs
+  refine ⟨?_, fun h => ?_, fun h => by rw [if_neg h]⟩
+  · split_ifs
+    · induction ys with
+      | nil => rfl
+      | cons a t ih => simpa using ih
+    · simp
+  · rw [if_pos h]
+    refine ⟨by simp, fun u hu => ?_⟩
+    unfold getR
+    rw [List.getD_eq_getElem?_getD, List.getD_eq_getElem?_getD, List.getElem?_map,
+      List.getElem?_eq_getElem hu]
+    rfl
+
 /-! ## T3 — learned interior keypoints stay ordered between the fixed ends -/
 
 /-- **C05/T3.** For ANY positive weights summing to one (in particular the softmax of any finite
@@ -280,6 +387,57 @@ theorem categorical_bounded (k : List Rat) (default : Option Int) (lo hi : Rat)
     · rw [category_maps_to_row k default x hx.1 hx.2 hd]
       exact hb _ (by omega)
     · exact absurd hx.1 hd
+
+/-- a non-negative category that is not the default value is looked up directly (an index beyond the
+last bucket reads the 0 of an all-zero one-hot row, as `getV` does) -/
+theorem category_lookup_nat (k : List Rat) (default : Option Int) (i : Nat) (hd : default ≠ some (i : Int)) :
+    Categorical.call k default (i : Int) = getV k i := by
+  rcases Nat.lt_or_ge i k.length with hlt | hge
+  · rw [category_maps_to_row k default i (by omega) (by exact_mod_cast hlt) hd]; simp
+  · unfold Categorical.call
+    have hne : ¬ ((i : Int) < (k.length : Int)) := by omega
+    have hg : getV k i = 0 := by unfold getV; rw [List.getD_eq_getElem?_getD, List.getElem?_eq_none hge]; rfl
+    cases default with
+    | none => simp [hne, hg]
+    | some d =>
+      have : (i : Int) ≠ d := fun e => hd (by rw [e])
+      simp [this, hne, hg]
+
+/-- **C05/T5 (categorical), monotone along the order.** If the category values (kernel rows) satisfy a
+set of ordered pairs `(i, j)` — `kernel[i] ≤ kernel[j]`, what `CategoricalCalibrationConstraints`
+establishes for the layer's `monotonicities` — then so does the calibration function: `f(i) ≤ f(j)` for
+EVERY listed pair, as long as neither category is the `default_input_value` (which is diverted to the
+last bucket, `default_maps_to_last_bucket`). -/
+theorem categorical_monotone_pairs (k : List Rat) (default : Option Int) (cs : Pairs)
+    (hf : Feasible cs k) (hd : ∀ p ∈ cs, default ≠ some (p.1 : Int) ∧ default ≠ some (p.2 : Int)) :
+    ∀ p ∈ cs, Categorical.call k default (p.1 : Int) ≤ Categorical.call k default (p.2 : Int) := by
+  intro p hp
+  rw [category_lookup_nat k default p.1 (hd p hp).1, category_lookup_nat k default p.2 (hd p hp).2]
+  exact hf p hp
+
+/-- the usual configurations: no default value, or a negative one (e.g. `-1`) -/
+theorem categorical_monotone_pairs_default_outside (k : List Rat) (default : Option Int) (cs : Pairs)
+    (hf : Feasible cs k) (hd : ∀ d, default = some d → d < 0) :
+    ∀ p ∈ cs, Categorical.call k default (p.1 : Int) ≤ Categorical.call k default (p.2 : Int) := by
+  apply categorical_monotone_pairs k default cs hf
+  intro p _
+  constructor <;> intro e <;> have := hd _ e <;> omega
+
+/-- **C05/T4, units (broadcast).** A single category column feeds every unit: unit `u` looks the
+category up in its OWN kernel column. -/
+theorem categorical_units_broadcast (kernels : List (List Rat)) (default : Option Int) (x : Int) :
+    Categorical.callUnits kernels default [x] =
+      .ok ((List.range kernels.length).map (fun u => Categorical.call (kernels.getD u []) default x)) := by
+  simp [Categorical.callUnits]
+
+/-- **C05/T4, units (one column per unit).** Unit `u` looks up category column `u` in kernel column `u`. -/
+theorem categorical_units_per_unit (kernels : List (List Rat)) (default : Option Int) (xs : List Int)
+    (h : xs.length = kernels.length) (h1 : xs.length ≠ 1) :
+    Categorical.callUnits kernels default xs =
+      .ok ((List.range kernels.length).map (fun u =>
+        Categorical.call (kernels.getD u []) default (xs.getD u 0))) := by
+  have h1' : kernels.length ≠ 1 := h ▸ h1
+  simp [Categorical.callUnits, h, h1']
 
 /-! ## T5 — monotone / bounded keypoint outputs give a monotone / bounded function -/
 
@@ -395,6 +553,15 @@ example : calibrate exLearned [1, 2, -1] [1/4, 1/2, 1/4] (7/2) = 3/2 := by decid
 example : keypointsOutputs exCfg [0, 1, 0, 2] = [0, 1, 1, 3] := by decide +kernel
 /-- categorical: 3 buckets, default `-1` -/
 example : Categorical.call [5, 6, 7] (some (-1)) 1 = 6 ∧ Categorical.call [5, 6, 7] (some (-1)) (-1) = 7 := by
+  decide +kernel
+/-- three buckets ordered by the pairs (0,1), (1,2): the kernel satisfies them, so does the function -/
+example : feasibleB [(0, 1), (1, 2)] [5, 6, 7] = true := by decide +kernel
+/-- two categorical units, one broadcast column / two columns; split into per-unit tensors -/
+example : Categorical.callUnits [[5, 6, 7], [1, 2, 3]] (some (-1)) [1] = .ok [6, 2] ∧
+    Categorical.callUnits [[5, 6, 7], [1, 2, 3]] (some (-1)) [2, -1] = .ok [7, 3] ∧
+    layerOutput 2 true [7, 3] = [[7], [3]] ∧ layerOutput 1 true [7] = [[7]] := by decide +kernel
+/-- per-unit inputs with an `is_missing` tensor: unit 0 present, unit 1 flagged missing -/
+example : callUnits exCfg [[1, 2, -1, 1/2], [0, 1, 1, 1]] [] [7, 8] [2, 2] (some [0, 1]) = .ok [5/2, 8] := by
   decide +kernel
 
 end Tfl.C05
